@@ -11,7 +11,15 @@ import (
 
 // evalInclude processes a <template include="..."> tag with the given vars map.
 // Handles stack push/pop properly using defer to ensure cleanup even on error.
+// maxIncludeDepth bounds the nesting of includes so that a component which
+// includes itself, directly or through other files, is reported as an error.
+const maxIncludeDepth = 100
+
 func (v *Vue) evalInclude(ctx VueContext, node *html.Node, vars map[string]any, depth int) ([]*html.Node, error) {
+	if len(ctx.TemplateStack) > maxIncludeDepth {
+		return nil, fmt.Errorf("include depth exceeded maximum of %d while including %s, possible circular include", maxIncludeDepth, helpers.GetAttr(node, "include"))
+	}
+
 	ctx.stack.Push(vars)
 	defer ctx.stack.Pop()
 
